@@ -827,6 +827,9 @@ func replayWorker(p *Prop, tier string) int {
 // detWorker prints one line per seed: seed, hash of (draws, events, violation signature). Used by
 // bin/selftest to prove that a run is a pure function of its seed (in-process worlds).
 func detWorker(p *Prop, tier string) int {
+	if len(p.Parts) > 0 && p.Run == nil {
+		p = p.Parts[0] // the in-process world of a property decided in two worlds
+	}
 	wd := os.Getenv("VERIF_WDIR")
 	os.MkdirAll(wd, 0755)
 	if p.Init != nil {
